@@ -51,6 +51,14 @@ Proof.
   intros pre k v d a Hd Ha. destruct cache_wheel_in_scope as [Hn Hi]. apply set_fires_once; auto.
 Qed.
 
+(* The delivery layer of the model (Deliver.v: a Drain is one atomic step of the wheel, its callbacks
+   run off the wheel goroutine and may call back into it) describes the code since fix 1b06186.  The
+   flag is observed on the running code on every run (9 pending timers, re-entrant drain callbacks,
+   then a call from another goroutine); the tree before the fix - Pinned.drain_on_wheel_goroutine_refuted -
+   and seeded change C12-11 - Pinned.seed_c12_11_refuted - make it false. *)
+Theorem drain_does_not_wait_on_the_wheel_goroutine : drain_delivers_off_wheel_goroutine = true.
+Proof. reflexivity. Qed.
+
 (* the whole schedule in ticks of the cleaner's wheel (what the 3970-tick corpus case walks through) *)
 Definition schedule_ticks : Z :=
   fold_right Z.add 0 (map (fun d => d / cleaner_wheel_interval_ns) cleaner_retry_schedule_ns).
